@@ -23,7 +23,7 @@ tvars == <<now, par, tracked, conn, expire, pen, ips, app, ts, rec, l, bad>>
 NoPar == [topics |-> <<>>, cap |-> 0, appW |-> 0, ipW |-> 0, ipThr |-> 1, wl |-> <<>>,
           penW |-> 0, penThr |-> 0, penD |-> 2, dtz |-> 1, retain |-> 0, ttl |-> 1]
 
-NCov == 31
+NCov == 37
 TInit == TLCSet(1, 0) /\ (\A i \in 1..NCov : TLCSet(10 + i, 0)) /\ SInit(NoPar) /\ l = 1 /\ bad = FALSE
 
 DoReset(p0) ==
@@ -73,6 +73,7 @@ CovTags(e) ==
         r == IF "id" \in DOMAIN e THEN GetRec(e.id) ELSE Rec0
         connected == {p \in tracked : conn[p]}
         retained == {p \in tracked : ~conn[p]}
+        upd == k = "setparams" /\ Scored(e.t) /\ ValidTP(e.tp)
         clk == k \in {"tick", "refresh"}   \* situations that are states, not steps, are sampled when the clock moves
     IN  Tag(k = "deliver" /\ AtLive(e) /\ s.fmd + S >= TP(e.t).c2 * S, 1)
    \cup Tag(k = "refresh" /\ \E p \in connected, t \in ScoredTopics : ts[p][t].fmd = TP(t).c2 * S, 2)
@@ -112,6 +113,16 @@ CovTags(e) ==
    \cup Tag(k = "deliver" /\ AtLive(e) /\ s.inMesh /\ s.mmd + S >= TP(e.t).c3 * S, 29)
    \cup Tag(clk /\ \E p \in tracked, t \in ScoredTopics : C3b(p, t) < 0 /\ ~ts[p][t].inMesh, 30)
    \cup Tag(clk /\ par.ipW < 0 /\ \E p \in tracked : \E ip \in ips[p] \ RangeOf(par.wl) : PeersOnIP(ip) - par.ipThr >= 2, 31)
+   \* parameter updates of a topic that has parameters (upd), by what they do to the two delivery caps
+   \cup Tag(upd /\ e.tp.c2 < TP(e.t).c2 /\ e.tp.c3 >= TP(e.t).c3 /\ \E p \in tracked : ts[p][e.t].fmd > e.tp.c2 * S, 32)
+   \cup Tag(upd /\ e.tp.c3 < TP(e.t).c3 /\ e.tp.c2 >= TP(e.t).c2 /\ \E p \in tracked : ts[p][e.t].mmd > e.tp.c3 * S, 33)
+   \cup Tag(upd /\ e.tp.c2 < TP(e.t).c2 /\ e.tp.c3 < TP(e.t).c3
+            /\ \E p \in tracked : ts[p][e.t].fmd > e.tp.c2 * S \/ ts[p][e.t].mmd > e.tp.c3 * S, 34)
+   \cup Tag(k = "setparams" /\ ~ValidTP(e.tp) /\ Scored(e.t), 35)
+   \cup Tag(upd /\ e.tp.c2 >= TP(e.t).c2 /\ e.tp.c3 >= TP(e.t).c3
+            /\ \E p \in tracked : ts[p][e.t].fmd > 0 \/ ts[p][e.t].mmd > 0 \/ ts[p][e.t].inMesh, 36)
+   \cup Tag(upd /\ (e.tp.c2 < TP(e.t).c2 \/ e.tp.c3 < TP(e.t).c3)
+            /\ \E p \in tracked : ~conn[p] /\ (ts[p][e.t].fmd > e.tp.c2 * S \/ ts[p][e.t].mmd > e.tp.c3 * S), 37)
 CovCount(e) == \A i \in CovTags(e) : TLCSet(10 + i, TLCGet(10 + i) + 1)
 
 \* the previous line's observation, judged in the state that line led to
@@ -120,6 +131,8 @@ PrevFail ==
     ELSE LET e == Trace[l - 1] IN
       IF e.e = "reset" THEN <<>>
       ELSE IF e.e = "panic" THEN <<"P_C10_Function", "panic", "no panic", e.msg>>
+      ELSE IF e.e = "setparams" /\ e.refused # ~ValidTP(e.tp)
+        THEN <<"P_C10_Function", "-", "parameter update refused by validation", ~ValidTP(e.tp), e.refused>>
       ELSE LET F == {p \in DOMAIN e.obs : JudgePeer(p, e.obs[p]) # <<>>} IN
            IF F = {} THEN (IF e.now # now THEN <<"MACH", "clock", now, e.now>> ELSE <<>>)
            ELSE LET p == CHOOSE q \in F : TRUE IN <<JudgePeer(p, e.obs[p])[1], p>> \o Tail(JudgePeer(p, e.obs[p]))
